@@ -107,14 +107,65 @@ def table_entries(fdef):
     return out, notes
 
 
+SIGN_TESTS = {'is_positive': 'decide (¬ %s ≤ 0)', 'is_negative': 'decide (¬ 0 ≤ %s)',
+              'is_nonnegative': 'decide (0 ≤ %s)', 'is_nonpositive': 'decide (%s ≤ 0)'}
+
+
+def lean_guard(node):
+    """sign test on `scale` / `shift` (SymPy assumptions `x.is_positive` ...), `and` / `or` / `not` of such"""
+    if isinstance(node, ast.BoolOp):
+        op = ' && ' if isinstance(node.op, ast.And) else ' || '
+        return '(' + op.join(lean_guard(v) for v in node.values) + ')'
+    if isinstance(node, ast.UnaryOp) and isinstance(node.op, ast.Not):
+        return '(!%s)' % lean_guard(node.operand)
+    if (isinstance(node, ast.Attribute) and node.attr in SIGN_TESTS and isinstance(node.value, ast.Name)
+            and node.value.id in ('scale', 'shift')):
+        return SIGN_TESTS[node.attr] % node.value.id
+    raise Unparsed('guard ' + ast.dump(node)[:80])
+
+
+def clip_guard(src):
+    """the condition under which the helper `clip_step` of `LaplaceTransformer.term` replaces
+    Heaviside(scale*t + shift) by 1:   if <test>: return sym.S.One"""
+    import warnings
+    with warnings.catch_warnings():
+        warnings.simplefilter('ignore')
+        tree = ast.parse(src)
+    for node in ast.walk(tree):
+        if isinstance(node, ast.ClassDef) and node.name == 'LaplaceTransformer':
+            for f in node.body:
+                if isinstance(f, ast.FunctionDef) and f.name == 'term':
+                    for g in ast.walk(f):
+                        if isinstance(g, ast.FunctionDef) and g.name == 'clip_step':
+                            tests = []
+                            for st in g.body:
+                                if isinstance(st, ast.If):
+                                    for r in st.body:
+                                        if (isinstance(r, ast.Return) and isinstance(r.value, ast.Attribute)
+                                                and r.value.attr == 'One'):
+                                            tests.append((st.test, st.lineno))
+                            if len(tests) != 1:
+                                raise Unparsed('clip_step: expected exactly one `if <test>: return sym.S.One`, found %d' % len(tests))
+                            # the prelude must be  scale, shift = scale_shift(arg, t)
+                            ok = any(isinstance(x, ast.Assign) and isinstance(x.targets[0], ast.Tuple)
+                                     and [getattr(e, 'id', None) for e in x.targets[0].elts] == ['scale', 'shift']
+                                     and isinstance(x.value, ast.Call) and getattr(x.value.func, 'id', '') == 'scale_shift'
+                                     for x in ast.walk(g))
+                            if not ok:
+                                raise Unparsed('clip_step: `scale, shift = scale_shift(arg, t)` not recognised')
+                            return lean_guard(tests[0][0]), tests[0][1]
+    raise Unparsed('LaplaceTransformer.term.clip_step not found')
+
+
 def generate(repo):
     path = os.path.join(repo, 'lcapy', 'laplace.py')
     src = open(path).read()
     unparsed = []
     defs = []
-    lines = ['/- GENERATED by harness/translate/tx_laplace.py from lcapy/laplace.py (LaplaceTransformer.function).',
+    lines = ['/- GENERATED by harness/translate/tx_laplace.py from lcapy/laplace.py (LaplaceTransformer.function, term.clip_step).',
              '   Do not edit: rewritten on every run of the C09 check. -/',
              'import Lcapy.Spec.Signal',
+             'set_option linter.unusedVariables false',
              'namespace Lcapy.Laplace.Gen',
              'variable {K : Type} [Add K] [Mul K] [Neg K] [Sub K] [Div K] [OfNat K 0] [OfNat K 1]',
              '']
@@ -146,6 +197,18 @@ def generate(repo):
             lines.append('def %sEntryTranslated : Bool := true' % fn)
             defs.append(fn)
         lines.append('')
+    try:
+        g, lineno = clip_guard(src)
+        lines.append('/-- `clip_step` in `LaplaceTransformer.term` (laplace.py:%d): Heaviside(scale·t + shift) is replaced by 1 when -/' % lineno)
+        lines.append('def clipGuard [LE K] [DecidableLE K] (scale shift : K) : Bool :=\n  %s' % g)
+        lines.append('def clipGuardTranslated : Bool := true')
+        defs.append('clipGuard')
+    except (Unparsed, SyntaxError) as e:
+        unparsed.append(str(e))
+        lines.append('/-- clip_step: NOT TRANSLATED (see unparsed) -/')
+        lines.append('def clipGuard [LE K] [DecidableLE K] (scale shift : K) : Bool := false')
+        lines.append('def clipGuardTranslated : Bool := false')
+    lines.append('')
     lines.append('end Lcapy.Laplace.Gen')
     return '\n'.join(lines) + '\n', {'defs': defs, 'unparsed': unparsed}
 
